@@ -97,7 +97,10 @@ GhostIPubs(g, ps) ==
   IF ps = <<>> THEN g
   ELSE LET p == Head(ps)
            g1 == [g EXCEPT !.ist[p[1]][p[2]] = p[3],
-                           !.susp[p[1]][p[2]] = IF p[3] \in {"STOPPED", "ISOLATED", "CHECKING"} THEN FALSE ELSE @,
+                           \* (a justification ends when the state CHANGES to one of these: a status published again
+                           \*  with the same state - e.g. CHECKING during the handshake - says nothing)
+                           !.susp[p[1]][p[2]] = IF p[3] \in {"STOPPED", "ISOLATED", "CHECKING"} /\ p[3] # g.ist[p[1]][p[2]]
+                                                THEN FALSE ELSE @,
                            !.stl[p[1]][p[2]] = IF p[3] \in {"STOPPED", "ISOLATED"} THEN FALSE ELSE @]
        IN GhostIPubs(g1, Tail(ps))
 
